@@ -11,7 +11,7 @@ import re
 
 from ppsa import stubs
 from ppsa.astutil import dotted, norm
-from ppsa.selftest import Variant, replace_once
+from ppsa.selftest import Variant, replace_once, in_function
 
 ROOTS = ("numpy", "scipy")
 
@@ -373,6 +373,43 @@ def rule_meas_order(ctx):
     ctx.require_min(rule, 45)
 
 
+def rule_merge_and_dead(ctx):
+    from rules import _lints
+    R = "MEAS-MERGE"
+    ctx.rule(R, "redundant measurements of one quantity are merged by the weighted average helper _calculate_weighted_measurements before "
+                "anything is summed or stored: every measurement-type loop of _add_measurements_to_bus and the side loop of "
+                "_add_measurements_to_branch calls it, and no raw 'value' column is summed per group")
+    for fq, minimum in ((f"{PPC}:_add_measurements_to_bus", 2), (f"{PPC}:_add_measurements_to_branch", 1)):
+        fi = ctx.repo.try_func(fq)
+        if fi is None:
+            ctx.fail(f"anchor vanished: {fq}")
+            continue
+        loops = [n for n in fi.node.body if isinstance(n, ast.For)]
+        k = 0
+        for lp in loops:
+            stores = [x for x in ast.walk(lp) if isinstance(x, ast.Assign) and isinstance(x.targets[0], ast.Subscript) and
+                      ast.unparse(x.targets[0].value) in ("bus_append", "branch_append")]
+            if not stores:
+                continue
+            k += 1
+            called = any(isinstance(c, ast.Call) and dotted(c.func) == "_calculate_weighted_measurements" for c in ast.walk(lp))
+            raw = [c for c in ast.walk(lp) if isinstance(c, ast.Call) and isinstance(c.func, ast.Attribute) and c.func.attr in ("sum", "mean")
+                   and "groupby" in ast.unparse(c.func.value) and ("'value'" in ast.unparse(c.func.value).replace('"', "'") or "std_dev" in ast.unparse(c.func.value))]
+            ok = called and not raw
+            ctx.ob(R, f"{PPC}::{fi.qualname}::loop-{norm(lp.iter, 30)}", ok,
+                   "duplicates merged by the weighted average" if ok else
+                   ("the loop stores measurements without calling _calculate_weighted_measurements" if not called else
+                    f"`{norm(raw[0], 80)}` sums raw measurement values per group: two measurements of the same quantity count twice"), fi.loc(lp))
+        if k < minimum:
+            ctx.fail(f"{fq}: only {k} measurement loops found (confirmed: {minimum})")
+    RD = "DEAD-STORE"
+    ctx.rule(RD, "no function of the estimation package assigns a local that is never read (a clamp, filter or copy whose result is lost "
+                 "while the unmodified object is used)")
+    fis = [f for mn in ctx.repo.module_names() if mn.startswith("pandapower.estimation") for f in ctx.repo.module(mn).functions.values()]
+    if _lints.dead_local_stores(ctx, RD, fis) < 60:
+        ctx.fail("DEAD-STORE: fewer than 60 functions found in pandapower.estimation")
+
+
 def run(ctx):
     rule = "API"
     ctx.rule(rule, "every attribute chain rooted at an imported numpy/scipy module that the state-"
@@ -394,6 +431,7 @@ def run(ctx):
     if (v1, v2) != ("ok", "missing") or v3 == "missing":
         ctx.fail(f"stub resolver control failed: {v1} {v2} {v3}")
     rule_meas_order(ctx)
+    rule_merge_and_dead(ctx)
 
 
 def variants(repo):
@@ -401,6 +439,8 @@ def variants(repo):
     p2 = "pandapower/estimation/algorithm/base.py"
     p3 = "pandapower/estimation/ppc_conversion.py"
     return [
+        Variant("std_dev floor assigned to an unused local", p2, replace_once("eppci.r_cov[eppci.r_cov<(10**(-5))] = 10**(-5)", "r_cov = np.maximum(eppci.r_cov, 10**(-5))"), "DEAD-STORE"),
+        Variant("bus injections summed without merging duplicates", p3, in_function("_add_measurements_to_bus", lambda s: s.replace('        this_meas = _calculate_weighted_measurements(this_meas, "element")\n        this_meas["ppci_index"] = this_meas.index.map(lambda x: map_bus[int(x)])\n', '        this_meas["weighted_measurement"] = this_meas["value"]\n        this_meas["merged_weight"] = this_meas["std_dev"]\n', 1)), "MEAS-MERGE"),
         Variant("isin->in1d", p, replace_once("np.isin(", "np.in1d("), "np.in1d"),
         Variant("LinAlgError path", p2, replace_once("np.linalg.LinAlgError", "np.linalg.linalg.LinAlgError"),
                 "np.linalg.linalg.LinAlgError"),
